@@ -42,6 +42,7 @@ type mcRun struct {
 
 type childRun struct {
 	part     string
+	env      []string
 	out      string // combined output
 	err      error
 	lines    [][]byte
@@ -50,11 +51,11 @@ type childRun struct {
 	complete bool
 }
 
-func runChild(part string, sub int, dir string) *childRun {
-	c := &childRun{part: part}
+func runChild(part string, sub int, dir string, extraEnv ...string) *childRun {
+	c := &childRun{part: part, env: extraEnv}
 	outFile := filepath.Join(dir, fmt.Sprintf("%s-%d.ndjson", part, sub))
 	cmd := exec.Command(os.Args[0], "-test.run=^TestChild$", "-test.count=1", "-test.timeout="+ev.Pick("15m", "60m"))
-	cmd.Env = append(os.Environ(), "VERIF_C08_PART="+part, fmt.Sprintf("VERIF_C08_SUB=%d", sub), "VERIF_C08_OUT="+outFile, "GORACE=halt_on_error=0")
+	cmd.Env = append(append(os.Environ(), extraEnv...), "VERIF_C08_PART="+part, fmt.Sprintf("VERIF_C08_SUB=%d", sub), "VERIF_C08_OUT="+outFile, "GORACE=halt_on_error=0")
 	var buf bytes.Buffer
 	cmd.Stdout, cmd.Stderr = &buf, &buf
 	start := time.Now()
@@ -79,6 +80,13 @@ func runChild(part string, sub int, dir string) *childRun {
 
 // ---- race detector reports ----
 
+// logRun: what the loggers of one logger-output process wrote ("<logger>/<phase>" -> normalised bytes)
+type logRun struct {
+	order   string
+	out     map[string]string
+	skipped []string
+}
+
 type raceReport struct {
 	site string
 	text string
@@ -98,6 +106,9 @@ func raceSite(block string) string {
 	}
 	if strings.Contains(acc, "schemes/enc/v1.readHeader") || strings.Contains(acc, "schemes/enc/v1.processSegments") {
 		return "enc-v1-bufpool"
+	}
+	if strings.Contains(acc, "kit/logger.ApplyOptionsToLoggers") || strings.Contains(acc, "kit/logger.getLoggers") || strings.Contains(acc, "kit/logger.NewLogger") {
+		return "logger-registry"
 	}
 	if strings.Contains(acc, "github.com/dapr/kit/cron.") { // the parser's package-level tables are the only state its calls share
 		return "cron-parser"
@@ -172,8 +183,12 @@ func findingKey(why string, reset tv.M, evLine tv.M) string {
 		return "bytepool:live-slice-content-lost"
 	case why == "Get returned a non-empty slice":
 		return "bytepool:get-returned-non-empty-slice"
+	case strings.HasPrefix(why, "concurrent logger-output "):
+		return "logger:output-differs-from-alone-run"
 	case strings.HasPrefix(why, "concurrent "):
 		return "calc:" + strings.Fields(why)[1]
+	case why == "data race on logger-registry":
+		return "logger:registry:concurrent-map-access"
 	case strings.HasPrefix(why, "data race on "):
 		return "race:" + strings.TrimPrefix(why, "data race on ")
 	}
@@ -198,6 +213,7 @@ func TestCheck(t *testing.T) {
 		{module: "BufPool", cfg: "MC_defect_extra.cfg", wantBad: "bytes consumed at extraBytes", workers: 1},
 		{module: "Registry", cfg: ev.Pick("MC_registry.cfg", "MC_registry_big.cfg"), workers: 2},
 		{module: "Registry", cfg: "MC_registry_defect.cfg", wantBad: "two loggers for one name", workers: 1},
+		{module: "Registry", cfg: "MC_registry_walk_defect.cfg", wantBad: "data race on logger-registry", workers: 1},
 		{module: "BytePool", cfg: ev.Pick("MC_bytepool.cfg", "MC_bytepool_big.cfg"), workers: ev.Pick(4, 8)},
 		{module: "BytePool", cfg: "MC_bytepool_asfound_fullput.cfg", workers: 2},
 		{module: "BytePool", cfg: "MC_bytepool_defect.cfg", wantBad: "stale bytes visible", workers: 1},
@@ -230,11 +246,43 @@ func TestCheck(t *testing.T) {
 	for i := 0; i < ev.Pick(3, 8); i++ {
 		parts = append(parts, "cron")
 	}
-	children := make([]*childRun, len(parts))
+	for i := 0; i < ev.Pick(1, 3); i++ {
+		parts = append(parts, "logwalk")
+	}
+	// logger output: every logger alone in a process of its own, then processes with all of them in
+	// different orders of first use (every logger first once, every pair in both orders)
+	nl := len(logCfgs)
+	var orders [][]int
+	for i := 0; i < nl; i++ {
+		orders = append(orders, []int{i})
+	}
+	for j := 0; j < nl; j++ {
+		var rot, rev []int
+		for k := 0; k < nl; k++ {
+			rot = append(rot, (j+k)%nl)
+			rev = append(rev, (j-k+nl)%nl)
+		}
+		orders = append(orders, rot, rev)
+	}
+	if thorough {
+		orders = append(orders, permutations([]int{0, 2, 3, 4})...)
+	}
+	children := make([]*childRun, len(parts)+len(orders))
 	for i, p := range parts {
 		i, p := i, p
 		wg.Add(1)
 		go func() { defer wg.Done(); children[i] = runChild(p, i, dir) }()
+	}
+	small := make(chan struct{}, 4) // the logger-output processes are tiny; a few at a time
+	for k, ord := range orders {
+		k, ord := k, ord
+		wg.Add(1)
+		go func() {
+			defer wg.Done()
+			small <- struct{}{}
+			defer func() { <-small }()
+			children[len(parts)+k] = runChild("logout", len(parts)+k, dir, "VERIF_C08_ORDER="+joinInts(ord))
+		}()
 	}
 	wg.Wait()
 
@@ -267,6 +315,7 @@ func TestCheck(t *testing.T) {
 	b := &tv.Batch{}
 	var resets []tv.M
 	var origin []string
+	var logRuns []logRun
 	counts := map[string]int64{}
 	raceSeen := map[string]raceReport{}
 	for _, c := range children {
@@ -305,6 +354,24 @@ func TestCheck(t *testing.T) {
 			}
 			var m tv.M
 			_ = json.Unmarshal(cur[0], &m)
+			if k, _ := m["kind"].(string); k == "logout" {
+				// not a trace for TLC: the bytes the loggers of this process wrote, compared below
+				run := logRun{order: strings.TrimPrefix(strings.Join(c.env, " "), "VERIF_C08_ORDER="), out: map[string]string{}}
+				for _, l := range cur[1:] {
+					var e tv.M
+					_ = json.Unmarshal(l, &e)
+					key := fmt.Sprintf("%v/%v", e["i"], e["phase"])
+					switch e["ev"] {
+					case "logout":
+						run.out[key], _ = e["out"].(string)
+					case "logout-skip":
+						run.skipped = append(run.skipped, fmt.Sprintf("%s (%v): %v", key, e["out"], e["why"]))
+					}
+				}
+				logRuns = append(logRuns, run)
+				cur = nil
+				return
+			}
 			b.AppendTrace(cur)
 			resets = append(resets, m)
 			origin = append(origin, c.part)
@@ -317,6 +384,70 @@ func TestCheck(t *testing.T) {
 			cur = append(cur, l)
 		}
 		flush()
+	}
+	// logger output: every logger's bytes in a shared process vs the process in which it ran alone
+	alone := map[string]string{}
+	ptySkipped := map[string]bool{}
+	for _, r := range logRuns {
+		if !strings.Contains(r.order, ",") {
+			for k, v := range r.out {
+				alone[k] = v
+			}
+		}
+		for _, sk := range r.skipped {
+			ptySkipped[sk] = true
+		}
+	}
+	var logCompared, logNoBaseline int64
+	for _, r := range logRuns {
+		if !strings.Contains(r.order, ",") {
+			continue
+		}
+		var lines [][]byte
+		j, _ := json.Marshal(tv.M{"ev": "reset", "kind": "calc", "n": len(logCfgs), "desc": tv.M{"mode": "logger-output", "order": r.order}})
+		lines = append(lines, j)
+		var keys []string
+		for k := range r.out {
+			keys = append(keys, k)
+		}
+		sort.Strings(keys)
+		for _, k := range keys {
+			base, ok := alone[k]
+			if !ok {
+				logNoBaseline++
+				continue
+			}
+			logCompared++
+			var i int
+			var phase string
+			fmt.Sscanf(strings.Replace(k, "/", " ", 1), "%d %s", &i, &phase)
+			note := ""
+			if r.out[k] != base {
+				note = fmt.Sprintf("logger %d (%+v) %s: %s", i, logCfgs[i], phase, firstDiffLine(base, r.out[k]))
+			}
+			j, _ := json.Marshal(tv.M{"ev": "calc", "g": i + 1, "what": "logger-output", "same": note == "", "note": note, "phase": phase})
+			lines = append(lines, j)
+		}
+		j, _ = json.Marshal(tv.M{"ev": "end"})
+		lines = append(lines, j)
+		b.AppendTrace(lines)
+		resets = append(resets, tv.M{"kind": "calc", "desc": map[string]any{"mode": "logger-output", "order": r.order}})
+		origin = append(origin, "logout")
+	}
+	e.Set("logger_outputs_compared", logCompared)
+	e.Set("logger_output_runs", int64(len(logRuns)))
+	e.Set("pty_available", len(ptySkipped) == 0)
+	if len(ptySkipped) > 0 {
+		var sk []string
+		for k := range ptySkipped {
+			sk = append(sk, k)
+		}
+		sort.Strings(sk)
+		e.Set("logger_outputs_skipped", sk)
+		e.Assume("no pseudo-terminal could be opened: the logger-output family ran without terminal outputs")
+	}
+	if logNoBaseline > 0 {
+		e.Set("logger_outputs_without_baseline", logNoBaseline)
 	}
 	var sites []string
 	for s := range raceSeen {
@@ -340,7 +471,8 @@ func TestCheck(t *testing.T) {
 	}
 	// (the millions of cheap pool cycles and calc calls of the background load are reported separately, not counted here)
 	evals := counts["seq_pipelines"] + 2*counts["two_stream_scenarios"] + counts["gated_pipelines"] + counts["free_pipelines"] +
-		counts["registry_calls"] + counts["bytepool_seq_cases"] + counts["bytepool_resize_cases"] + counts["cron_name_calls"]
+		counts["registry_calls"] + counts["bytepool_seq_cases"] + counts["bytepool_resize_cases"] + counts["cron_name_calls"] +
+		counts["logwalk_new_names"] + counts["logwalk_walks"] + counts["crypto_shared_calls"] + logCompared
 	e.Set("evaluations", evals)
 	e.Set("rule", "every case = one operation on the real code whose result is compared with the same operation run alone: "+
 		"(a) one Encrypt->Decrypt pipeline alone with every BufPool.Put overwriting the buffer with a poison pattern (2 ciphers x message lengths 0/1/100/65535/65536/65537 (+128K, 128K+1, 300K thorough) x 6 ways the header reaches readHeader (one read, 3 pieces, byte-wise, +1/+37/all payload bytes in the header's read) x key-wrap algorithms (ident, A256KW, A256CBC-NOPAD, A128CBC-NOPAD, RSA-OAEP-256 through kit/crypto; rotating in quick, all in thorough)), and the same without poison; "+
@@ -352,6 +484,9 @@ func TestCheck(t *testing.T) {
 		"(g) cron.ParseStandard/Parser.Parse and kit/crypto symmetric calls made concurrently vs alone; "+
 		"(h) default cron parser name tables: in separate processes, waves in which 4 goroutines parse specs with never-before-seen mixed-case spellings (all 7 capitalisations of the 12 month and 7 day names, alone / in lists / in ranges with steps, standard and seconds parser) while 4 goroutines parse lower-case named specs, ordered by nothing but the wave's start, answers compared with the lower-case spec parsed alone; race reports and the runtime's fatal concurrent-map error become race traces; "+
 		"(i) ByteSlicePool ownership across a growing Resize: a := Get; b := Resize(a, cap+{0,1,MinCap}); a kept and written, or Put; c := Get; d := Get; distinct content written into each; memory blocks numbered by address overlap; MinCap {1,7,64,4096} x written {1,MinCap,MinCap+5}, each repeated (sync.Pool drops a Put at random under -race). "+
+		"(j) logger registry walks: rounds in which one goroutine runs ApplyOptionsToLoggers in a loop while 6 goroutines register 80 never-seen names each, in a process of their own; a fatal concurrent-map error or race report becomes a race trace; "+
+		"(k) logger output bytes: 6 loggers (buffer/file/pseudo-terminal output x text/JSON, different levels and app ids) running a fixed script of log calls, each alone in its own process and together in 12 orders of first use (every logger first once, every pair in both orders; thorough: + all 24 orders of 4), sequentially and then concurrently; timestamps stripped; bytes must equal the alone run; "+
+		"(l) crypto decrypts sharing one ciphertext slice: 9 algorithms; second decrypt, attempt with another key then retry, ciphertext unchanged, first result unchanged; 6 goroutines x 20 decrypts of one shared slice with the right / another key. "+
 		"non-trivial = a pipeline scenario with at least two pipelines, or a single pipeline under poison; a ByteSlicePool case in which the slice was really recycled; distinct by scenario parameters (and schedule for gated runs)")
 	fmt.Printf("recorded %d runs, %d events, %d race report site(s)\n", b.Len(), b.Lines(), len(sites))
 	if b.Len() == 0 {
@@ -370,7 +505,7 @@ func TestCheck(t *testing.T) {
 	rejected := map[int]bool{}
 	perKey := map[string]int{}
 	// the replay kept per key is the first one reported: prefer the sequential child, then the shortest run
-	prio := map[string]int{"seq": 0, "gated": 1, "cron": 2, "free": 3, "race-detector": 4}
+	prio := map[string]int{"seq": 0, "gated": 1, "logout": 2, "logwalk": 3, "cron": 4, "free": 5, "race-detector": 6}
 	sort.SliceStable(rej, func(i, j int) bool {
 		a, c := rej[i], rej[j]
 		if prio[origin[a.Trace]] != prio[origin[c.Trace]] {
@@ -439,6 +574,45 @@ func TestCheck(t *testing.T) {
 		}
 	}
 	selfTest(e, b, resets, rejected)
+}
+
+func joinInts(a []int) string {
+	var fs []string
+	for _, v := range a {
+		fs = append(fs, fmt.Sprint(v))
+	}
+	return strings.Join(fs, ",")
+}
+
+func permutations(a []int) [][]int {
+	if len(a) <= 1 {
+		return [][]int{append([]int{}, a...)}
+	}
+	var out [][]int
+	for i := range a {
+		rest := append(append([]int{}, a[:i]...), a[i+1:]...)
+		for _, p := range permutations(rest) {
+			out = append(out, append([]int{a[i]}, p...))
+		}
+	}
+	return out
+}
+
+func firstDiffLine(a, b string) string {
+	la, lb := strings.Split(a, "\n"), strings.Split(b, "\n")
+	for i := 0; i < len(la) || i < len(lb); i++ {
+		x, y := "", ""
+		if i < len(la) {
+			x = la[i]
+		}
+		if i < len(lb) {
+			y = lb[i]
+		}
+		if x != y {
+			return fmt.Sprintf("line %d: alone %q, here %q", i+1, tailStr(x, 200), tailStr(y, 200))
+		}
+	}
+	return ""
 }
 
 func tailStr(s string, n int) string {
